@@ -30,6 +30,11 @@ PosDurs == {Dz, [Dz EXCEPT !.y = P32m1], [Dz EXCEPT !.mo = P32m1], [Dz EXCEPT !.
             [y |-> One, mo |-> One, w |-> One, d |-> One, h |-> One, mi |-> One, s |-> One, ms |-> One, us |-> One, ns |-> One],
             [Dz EXCEPT !.y = FromInt(547581)], [Dz EXCEPT !.d = FromInt(200000001)], [Dz EXCEPT !.ns = One], [Dz EXCEPT !.h = FromInt(24)]}
 Durs == PosDurs \cup {NegDur(D) : D \in PosDurs}
+\* astronomically large integral doubles in one field (2^81, 2^100, 2^120): far beyond every limit - the validity check itself must survive them
+P81 == Bg(1, <<2352, 4941, 2583, 9229, 5163, 4178, 2>>)
+P100 == Bg(1, <<5376, 320, 4967, 9401, 2822, 6002, 7650, 126>>)
+HugeDurs == UNION {{[Dz EXCEPT !.y = v], [Dz EXCEPT !.mo = v], [Dz EXCEPT !.w = v], [Dz EXCEPT !.d = v], [Dz EXCEPT !.h = v], [Dz EXCEPT !.mi = v], [Dz EXCEPT !.s = v],
+                    [Dz EXCEPT !.ms = v], [Dz EXCEPT !.us = v], [Dz EXCEPT !.ns = v], [Dz EXCEPT !.d = Neg(v)], [Dz EXCEPT !.d = v, !.h = v, !.ns = v]} : v \in {P81, P100}}
 Dates == {Date(-271821, 4, 19), Date(275760, 9, 13), Date(0, 2, 29), Date(-1, 12, 31), Date(1970, 1, 1), Date(2020, 1, 31), Date(275760, 1, 31), Date(-271821, 5, 31)}
 Times == {Time(0, 0, 0, 0, 0, 0), Time(23, 59, 59, 999, 999, 999), Time(12, 30, 30, 500, 500, 500)}
 DTJ(dt, t) == [y |-> dt.y, m |-> dt.m, d |-> dt.d, h |-> t.h, mi |-> t.mi, s |-> t.s, ms |-> t.ms, us |-> t.us, ns |-> t.ns]
@@ -67,7 +72,7 @@ Cells ==
      \cup {[op |-> "Instant.toDateUtc", args |-> [ns |-> i]] : i \in Insts}
    ELSE {})
   \cup (IF "duration" \in Families THEN
-     {[op |-> "Duration.new", args |-> [dur |-> D]] : D \in Durs}
+     {[op |-> "Duration.new", args |-> [dur |-> D]] : D \in Durs \cup HugeDurs}
      \cup {[op |-> o, args |-> [recv |-> a, other |-> b]] : o \in {"Duration.add", "Duration.subtract", "Duration.compare"}, a \in Durs, b \in Durs}
      \cup {[op |-> o, args |-> [recv |-> a, other |-> b, rel |-> r]] : o \in {"Duration.compare"}, a \in Durs, b \in Durs, r \in {Date(2020, 1, 31), Date(275760, 9, 13), Date(-271821, 4, 19)}}
      \cup {[op |-> "Duration.round", args |-> [recv |-> a, st |-> st]] : a \in Durs, st \in StsFew}
